@@ -31,6 +31,8 @@ class FnRec:
         self.qual = None
         self.file = None
         self.sha = None
+        self.lets = []
+        self.renamed = None
         self.raw = None
         self.gen_lines = None  # (first, last) 1-based in generated file
         self.rules = []
@@ -319,6 +321,14 @@ def generate(unit_dir, mustfail=False, mutate=None, variant=None, template='unit
             rec.src_qual = qual
             rname = rec.qual
             rec.sha = hashlib.sha256(raw.encode()).hexdigest()[:16]
+            rec.lets = let_names(raw)
+            rec.renamed = None
+            if not plain:
+                # locals renamed since the text the contracts were written against (recorded in the baseline): the contracts follow
+                rm = rename_map(baseline_lets(os.path.basename(unit_dir.rstrip('/')), rec.qual), rec.lets)
+                if rm:
+                    apply_renames(spec, rm)
+                    rec.renamed = rm
             rec.rules = sorted(spec['rules'] | {'R1', 'R2'})
             rec.has_contract = bool((spec.get('sig') or '').strip())
             rec.mustfail = not o.get('nomustfail')
@@ -454,6 +464,57 @@ def reaches_forbidden(rf, raw, start):
                 for (a, kw, bo, bc) in defs:
                     work.append((rf.text[a:bc + 1], chain + [name]))
     return None
+
+
+_LET = re.compile(r'\blet\s+(?:mut\s+)?([a-z_][a-z0-9_]*)\b(?!\s*\()')
+_base_cache = [None]
+
+
+def let_names(raw):
+    """Ordered names bound by plain `let` statements of a function (the identifiers contracts can mention)."""
+    return [mm.group(1) for mm in _LET.finditer(mask(raw))]
+
+
+def baseline_lets(unit, qual):
+    if _base_cache[0] is None:
+        try:
+            import json
+            with open(os.path.join(VERIF, 'baseline_obligations.json')) as f:
+                _base_cache[0] = json.load(f)
+        except Exception:
+            _base_cache[0] = {}
+    return (_base_cache[0].get(unit, {}).get('lets') or {}).get(qual)
+
+
+def rename_map(old, new):
+    """old/new: let-name lists of the baseline text and of the current text.  If they differ only by a consistent renaming of
+    locals (same number of bindings, a one-to-one map, no new name that was already in use) return {old: new}, else None."""
+    if not old or old == new or len(old) != len(new):
+        return None
+    m = {}
+    for a, b in zip(old, new):
+        if m.setdefault(a, b) != b:
+            return None
+    m = {a: b for a, b in m.items() if a != b}
+    if not m or len(set(m.values())) != len(m):
+        return None
+    kept = set(old) - set(m)
+    if kept & set(m.values()):
+        return None
+    return m
+
+
+def apply_renames(spec, m):
+    rx = re.compile(r'(?<![A-Za-z0-9_.])(%s)(?![A-Za-z0-9_])' % '|'.join(re.escape(k) for k in sorted(m, key=len, reverse=True)))
+    f = lambda t: rx.sub(lambda mm: m[mm.group(1)], t) if isinstance(t, str) else t
+    for k in ('sig', 'entry', 'tail', 'fnend'):
+        if spec.get(k):
+            spec[k] = f(spec[k])
+    for k in ('loopbody', 'loopend', 'afterloop', 'closures', 'afterclosure', 'before'):
+        spec[k] = {kk: f(v) for kk, v in spec.get(k, {}).items()}
+    spec['loops'] = {kk: dict(v, inv=f(v.get('inv'))) for kk, v in spec.get('loops', {}).items()}
+    if spec.get('rewrites'):
+        spec['rewrites'] = [(f(a), f(b)) for a, b in spec['rewrites']]
 
 
 FORBIDDEN_HIT = []  # quals of auto-stubbed callees that got `requires false` in this generation
